@@ -288,6 +288,10 @@ pub fn run(o: &DetectOpts) -> serde_json::Value {
                 found.extend(check_c07(&c.bytes, &c.settings, ms));
                 found.extend(check_c08(ms));
                 found.extend(check_c10(&c.bytes, &c.settings, ms));
+                if focus == "C13" || !same || idx % 5 == 0 {
+                    let alt = (rng.range(1, 9), c.bytes.len() / 2 + rng.below(c.bytes.len() + 2));
+                    found.extend(check_c13_window(&c.bytes, &c.settings, &real_lines, alt));
+                }
                 let wf = c.settings.steps >= 1;
                 let deep = !same || o.replay.is_some() || idx % 4 == 0;
                 if wf && c.bytes.len() <= 40000 && (focus == "C09" || focus == "C06" || deep) {
@@ -330,7 +334,31 @@ pub fn run(o: &DetectOpts) -> serde_json::Value {
                                    "case": case_json(&c.kind, &c.bytes, &c.settings)}));
         }
     }
+    let mut c13_texts = 0u64;
+    let mut c13_encodings = 0u64;
+    if focus == "C13" && o.replay.is_none() {
+        for k in 0..(o.n / 4).max(10) {
+            let t = rng.pick(&corpus.texts);
+            let take = rng.range(1, 1200);
+            let t: String = t.chars().skip(rng.below(300)).take(take).collect();
+            if t.is_empty() {
+                continue;
+            }
+            let mut s = default_settings();
+            if k % 3 == 1 {
+                s.threshold = ordered_float::OrderedFloat(*rng.pick(&thresholds()));
+            }
+            let (f, n) = check_c13_text(&t, &s, k % 2 == 0);
+            c13_texts += 1;
+            c13_encodings += n as u64;
+            for x in f {
+                violations.push(json!({"prop": x.prop, "what": x.what, "known": x.known,
+                    "case": {"kind": "c13-text", "text_hex": hex(t.as_bytes()), "with_bom": k % 2 == 0, "settings": settings_json(&s)}}));
+            }
+        }
+    }
     let rep = json!({
+        "c13_texts": c13_texts, "c13_encodings_compared": c13_encodings,
         "level": "detect", "seed": o.seed, "focus": o.focus, "evaluations": cases.len(),
         "distinct_nontrivial": nontrivial, "kinds": kinds, "branches": branches, "sizes": size_hist,
         "disagreements": disagreements, "violations": violations,
